@@ -236,7 +236,7 @@ pub fn mk_rewrite<N: Analysis<LArith> + 'static>(r: &RuleSpec) -> Rewrite<LArith
 
 fn envs(m: Model, slots: &[Slot], rng: &mut Rng, n: usize) -> Vec<Env> {
     let k = slots.len() as u32;
-    if (m.p as u64).pow(k) <= 343 {
+    if (m.p as u64).checked_pow(k).map(|x| x <= 343).unwrap_or(false) {
         // exhaustive
         let mut out = vec![Env::new()];
         for s in slots {
@@ -405,7 +405,7 @@ pub fn run_case(rng: &mut Rng, bad: bool) -> CaseOut {
                 return out;
             }
             Err(p) => {
-                out.fail(Fail::panic("panic", &p, &format!("model check after iteration {it}"), cj));
+                out.fail(Fail::check_panic(&p, &format!("model check after iteration {it}"), cj));
                 return out;
             }
         }
